@@ -96,3 +96,119 @@ pub proof fn thm_c03_total(bcr: Map<Carrier, BalanceCarrier>, comps: Components,
     lemma_csum_lin(dom, gsel(bcr, fa2), gsel(bcr, fx2), gsel(bcr, fb2), k, carriers12());
     lemma_csum_lin(dom, gsel(bcr, fa3), gsel(bcr, fx3), gsel(bcr, fb3), k, carriers12());
 }
+
+// ------------------------------------------------------------------------------------------------ two evaluations with k_exp = k1 and k_exp = k2
+pub open spec fn c03_rel(x: EnergyPerformance, y: EnergyPerformance, k1: real, k2: real) -> bool {
+    let idx = idx_ident(nsteps(x.components.data@) as int);
+    &&& y.balance_cr@.dom() =~= x.balance_cr@.dom()
+    // final-energy flows (per step and annual) and everything of the step A result do not depend on k_exp; step B is affine in it
+    &&& (forall|c: Carrier| x.balance_cr@.contains_key(c) ==> steps_rel(run_of(#[trigger] x.balance_cr@[c]), run_of(y.balance_cr@[c]), idx, 1real)
+            && annual_rel(run_of(x.balance_cr@[c]), run_of(y.balance_cr@[c]), 1real) && we_k_rel(x.balance_cr@[c].we, y.balance_cr@[c].we, k1, k2))
+    &&& bal_rel_scalars(x.balance, y.balance, 1real)
+    &&& r3v(y.balance.we.a) == r3v(x.balance.we.a)
+    &&& r3v(x.balance.we.b) == r3d(r3v(x.balance.we.a), r3s(k1, x_ab(x.balance_cr@)))
+    &&& r3v(y.balance.we.b) == r3d(r3v(x.balance.we.a), r3s(k2, x_ab(x.balance_cr@)))
+}
+#[verifier::spinoff_prover]
+pub proof fn lemma_c03_carriers(comps: Components, w: Seq<Factor>, k1: f32, k2: f32, lm: bool, x: EnergyPerformance, y: EnergyPerformance)
+    requires comps_wf(comps.data@), vals_dom(comps.data@),
+             ep_carriers_ok(comps, k1, lm, x), ep_carriers_ok(comps, k2, lm, y),
+             cgn_added(w, x.wfactors.wdata@, comps.data@), cgn_added(w, y.wfactors.wdata@, comps.data@),
+    ensures y.balance_cr@.dom() =~= x.balance_cr@.dom(),
+            forall|c: Carrier| x.balance_cr@.contains_key(c) ==> steps_rel(run_of(#[trigger] x.balance_cr@[c]), run_of(y.balance_cr@[c]), idx_ident(nsteps(comps.data@) as int), 1real)
+                && annual_rel(run_of(x.balance_cr@[c]), run_of(y.balance_cr@[c]), 1real) && we_k_rel(x.balance_cr@[c].we, y.balance_cr@[c].we, rv(k1), rv(k2)),
+{
+    let cs = comps.data@;
+    let n = nsteps(cs) as int;
+    let idx = idx_ident(n);
+    lemma_lay_same(n, 1real); lemma_lay_same_r(n, 1real);
+    assert(tags_same(cs, cs));
+    assert forall|i2: int| 0 <= i2 < idx.len() implies 0 <= #[trigger] idx[i2] < nsteps(cs) && val_rel(cs, cs, idx[i2], i2, 1real) by {
+        assert(idx[i2] == i2);
+        assert forall|j: int| 0 <= j < cs.len() implies rv(#[trigger] e_vals(cs[j])[i2]) == 1real * rv(e_vals(cs[j])[i2]) by {
+            assert(1real * rv(e_vals(cs[j])[i2]) == rv(e_vals(cs[j])[i2])) by(nonlinear_arith);
+        }
+    }
+    lemma_inputs_vals(cs, cs, idx, 1real);
+    let bcr = x.balance_cr@; let bcr2 = y.balance_cr@;
+    assert(bcr2.dom() =~= bcr.dom());
+    assert forall|s: Sel| #[trigger] acc_an(cs, s, n) == 1real * acc_an(cs, s, n) by { assert(1real * acc_an(cs, s, n) == acc_an(cs, s, n)) by(nonlinear_arith); }
+    assert forall|c: Carrier| bcr.contains_key(c) implies steps_rel(run_of(#[trigger] bcr[c]), run_of(bcr2[c]), idx, 1real)
+            && annual_rel(run_of(bcr[c]), run_of(bcr2[c]), 1real) && we_k_rel(bcr[c].we, bcr2[c].we, rv(k1), rv(k2)) by {
+        reveal(bfc_post);
+        assert(bcr2.contains_key(c));
+        let bx = bcr[c]; let by = bcr2[c];
+        let fa = filter_carrier(cs, c);
+        let a = Run { cs: fa, used: bx.used, prod: bx.prod, fm: bx.f_match@, exp: bx.exp, del: bx.del };
+        let b = Run { cs: fa, used: by.used, prod: by.prod, fm: by.f_match@, exp: by.exp, del: by.del };
+        assert(carrier_rel(cs, cs, c, idx, 1real));
+        lemma_filter_carrier(cs, c, nsteps(cs));
+        lemma_vals_dom_filter(cs, c);
+        assert(e_has_carrier(fa[0], c));
+        assert(run_n(a) == n && run_n(b) == n) by { assert(e_vals(fa[0]).len() == n); }
+        assert forall|i2: int| 0 <= i2 < idx.len() implies 0 <= #[trigger] idx[i2] < run_n(a) && acc_rel(a.cs, b.cs, idx[i2], i2, 1real)
+                && in_dom(rv(a.prod.t@[idx[i2]])) && in_dom(rv(b.prod.t@[i2])) by {
+            assert(acc_rel(fa, fa, idx[i2], i2, 1real));
+            lemma_prod_in_dom(a, lm, idx[i2]);
+            lemma_prod_in_dom(b, lm, i2);
+        }
+        assert(carrier_hyp(a, b, lm, idx, 1real));
+        lemma_step_doms(a, b, lm);
+        assert forall|i2: int| 0 <= i2 < idx.len() implies 0 <= #[trigger] idx[i2] < run_n(a) && step_rel_r(a, b, idx[i2], i2, 1real) by { thm_step(a, b, lm, idx[i2], i2, 1real); }
+        thm_annual(a, b, lm, idx, 1real, 1real);
+        lemma_we_inputs(a, b, 1real);
+        lemma_cgn_added_same(w, x.wfactors.wdata@, y.wfactors.wdata@, cs, cs, 1real, c);
+        lemma_fp_same_lookups(x.wfactors.wdata@, y.wfactors.wdata@, c, a.exp, a.del);
+        thm_weights_k(x.wfactors.wdata@, y.wfactors.wdata@, c, rv(k1), rv(k2), a, b, Ok(bx.we), Ok(by.we));
+        assert(steps_rel(run_of(bx), run_of(by), idx, 1real)) by {
+            assert forall|i2: int| 0 <= i2 < idx.len() implies 0 <= #[trigger] idx[i2] < run_n(run_of(bx)) && step_rel_r(run_of(bx), run_of(by), idx[i2], i2, 1real) by {
+                assert(step_rel_r(a, b, idx[i2], i2, 1real));
+            }
+        }
+        assert(annual_rel(run_of(bx), run_of(by), 1real)) by { assert(annual_rel(a, b, 1real)); }
+    }
+}
+/// C03 AT THE PUBLIC ENTRY POINT: the same building evaluated with k_exp = k1 and with k_exp = k2: all final-energy flows and the whole
+/// step A result are the same; there is one quantity X, free of k_exp, with B(k1) = A - k1 X and B(k2) = A - k2 X (per carrier and for the
+/// building) - so B(0) = A, B is affine in k_exp, and a building whose X is zero (nothing exported) reports the same result for every k_exp
+pub proof fn thm_c03_ep(comps: Components, w: Seq<Factor>, k1: f32, k2: f32, area: f32, lm: bool, r: Result<EnergyPerformance>, r2: Result<EnergyPerformance>)
+    requires comps_wf(comps.data@), vals_dom(comps.data@),
+             ep_post(comps, w, k1, area, lm, r), ep_post(comps, w, k2, area, lm, r2), r is Ok, r2 is Ok,
+    ensures c03_rel(r->Ok_0, r2->Ok_0, rv(k1), rv(k2)),
+{
+    let x = r->Ok_0; let y = r2->Ok_0;
+    let bcr = x.balance_cr@; let bcr2 = y.balance_cr@;
+    lemma_c03_carriers(comps, w, k1, k2, lm, x, y);
+    assert(x.components == comps);
+    // the building: both accumulations start from zero
+    assert(carriers_affine(bcr, rv(k1))) by { assert forall|c: Carrier| bcr.contains_key(c) implies r3v((#[trigger] bcr[c]).we.b) == r3d(r3v(bcr[c].we.a), r3s(rv(k1), r3v(bcr[c].we.exp_ab))) by { assert(we_k_rel(bcr[c].we, bcr2[c].we, rv(k1), rv(k2))); } }
+    assert(carriers_affine(bcr2, rv(k2))) by { assert forall|c: Carrier| bcr2.contains_key(c) implies r3v((#[trigger] bcr2[c]).we.b) == r3d(r3v(bcr2[c].we.a), r3s(rv(k2), r3v(bcr2[c].we.exp_ab))) by { assert(bcr.contains_key(c)); assert(we_k_rel(bcr[c].we, bcr2[c].we, rv(k1), rv(k2))); } }
+    thm_c03_total(bcr, comps, x.balance, rv(k1));
+    thm_c03_total(bcr2, comps, y.balance, rv(k2));
+    lemma_c03_same_a_x(bcr, bcr2, comps, x.balance, y.balance, rv(k1), rv(k2));
+    assert(bcr_flows_rel(bcr, bcr2, 1real));
+    let (ord, hist) = choose|ord: Seq<Carrier>, hist: Seq<Balance>| #[trigger] bal_chain(bcr, ord, hist) && bal_initial(hist[0], comps) && hist.last() == x.balance;
+    let (ord2, hist2) = choose|ord2: Seq<Carrier>, hist2: Seq<Balance>| #[trigger] bal_chain(bcr2, ord2, hist2) && bal_initial(hist2[0], comps) && hist2.last() == y.balance;
+    thm_building_scalars(bcr, bcr2, ord, hist, ord2, hist2, 1real);
+}
+pub proof fn lemma_c03_same_a_x(bcr: Map<Carrier, BalanceCarrier>, bcr2: Map<Carrier, BalanceCarrier>, comps: Components, bx: Balance, by: Balance, k1: real, k2: real)
+    requires bcr2.dom() =~= bcr.dom(), forall|c: Carrier| bcr.contains_key(c) ==> we_k_rel((#[trigger] bcr[c]).we, bcr2[c].we, k1, k2),
+             ep_totals_ok(bcr, comps, bx), ep_totals_ok(bcr2, comps, by),
+    ensures r3v(by.we.a) == r3v(bx.we.a), x_ab(bcr2) == x_ab(bcr),
+{
+    let (ord, hist) = choose|ord: Seq<Carrier>, hist: Seq<Balance>| #[trigger] bal_chain(bcr, ord, hist) && bal_initial(hist[0], comps) && hist.last() == bx;
+    let (ord2, hist2) = choose|ord2: Seq<Carrier>, hist2: Seq<Balance>| #[trigger] bal_chain(bcr2, ord2, hist2) && bal_initial(hist2[0], comps) && hist2.last() == by;
+    lemma_chain_scalars(bcr, ord, hist); lemma_chain_scalars(bcr2, ord2, hist2);
+    let fa1 = |r: BalanceCarrier| rv(r.we.a.ren); let fa2 = |r: BalanceCarrier| rv(r.we.a.nren); let fa3 = |r: BalanceCarrier| rv(r.we.a.co2);
+    let fx1 = |r: BalanceCarrier| rv(r.we.exp_ab.ren); let fx2 = |r: BalanceCarrier| rv(r.we.exp_ab.nren); let fx3 = |r: BalanceCarrier| rv(r.we.exp_ab.co2);
+    lemma_field_sum(bcr, ord, hist, |q: Balance| rv(q.we.a.ren), fa1); lemma_field_sum(bcr2, ord2, hist2, |q: Balance| rv(q.we.a.ren), fa1);
+    lemma_field_sum(bcr, ord, hist, |q: Balance| rv(q.we.a.nren), fa2); lemma_field_sum(bcr2, ord2, hist2, |q: Balance| rv(q.we.a.nren), fa2);
+    lemma_field_sum(bcr, ord, hist, |q: Balance| rv(q.we.a.co2), fa3); lemma_field_sum(bcr2, ord2, hist2, |q: Balance| rv(q.we.a.co2), fa3);
+    let dom = bcr.dom();
+    assert forall|c: Carrier| dom.contains(c) implies #[trigger] gsel(bcr2, fa1)(c) == gsel(bcr, fa1)(c) && gsel(bcr2, fa2)(c) == gsel(bcr, fa2)(c) && gsel(bcr2, fa3)(c) == gsel(bcr, fa3)(c)
+        && gsel(bcr2, fx1)(c) == gsel(bcr, fx1)(c) && gsel(bcr2, fx2)(c) == gsel(bcr, fx2)(c) && gsel(bcr2, fx3)(c) == gsel(bcr, fx3)(c) by {
+        assert(we_k_rel(bcr[c].we, bcr2[c].we, k1, k2));
+    }
+    lemma_csum_eq(dom, gsel(bcr, fa1), gsel(bcr2, fa1), carriers12()); lemma_csum_eq(dom, gsel(bcr, fa2), gsel(bcr2, fa2), carriers12()); lemma_csum_eq(dom, gsel(bcr, fa3), gsel(bcr2, fa3), carriers12());
+    lemma_csum_eq(dom, gsel(bcr, fx1), gsel(bcr2, fx1), carriers12()); lemma_csum_eq(dom, gsel(bcr, fx2), gsel(bcr2, fx2), carriers12()); lemma_csum_eq(dom, gsel(bcr, fx3), gsel(bcr2, fx3), carriers12());
+}
